@@ -5,6 +5,7 @@ n="$1"
 cd /verif
 git merge --no-commit --no-ff "agent-$n" >/dev/null 2>&1
 for f in MANIFEST.json known_findings.json DESIGN.md coq/.nra.cache coq/.lia.cache coq/.nia.cache; do git checkout --ours -- $f 2>/dev/null; git add $f 2>/dev/null; done
+for f in $(git diff --name-only --diff-filter=U | grep '^evidence/'); do git checkout --ours -- $f; git add $f; done
 git rm -q --cached coq/.nra.cache coq/.lia.cache coq/.nia.cache 2>/dev/null
 left=$(git diff --name-only --diff-filter=U)
 if [ -n "$left" ]; then echo "UNRESOLVED CONFLICTS:"; echo "$left"; exit 1; fi
